@@ -47,8 +47,8 @@ def run(env: Env) -> Outcome:
                 "memory/sqlite store, 1/3 with scheduler-controlled store suspension, 1/4 with work longer than idle_timeout and retries); "
                 "non-trivial = at least one release and one reload; distinct by (case, schedule)")
     LP.run_malformed(out)
-    LP.run_inprocess(env, out, "C26", env.budget(30, 2400), WITNESSES)
-    LP.run_row_corr(env, out, env.budget(400, 40000))
+    LP.run_inprocess(env, out, "C26", env.budget(24, 2400), WITNESSES)
+    LP.run_row_corr(env, out, env.budget(300, 40000))
     o = LP.run_dbos_standin(out, create_row=True)
     tl = {t["tag"]: t for t in o["timeline"]}
     if not (tl.get("after_idle", {}).get("row", "").startswith("row=released") and tl.get("after_send_99", {}).get("result") == [1, 99]
